@@ -36,7 +36,7 @@ type c07Input struct {
 var c07Modes = []string{"scripts-only", "tx", "tx+scripts", "tx-nil-prevout", "nil-tx-neg-idx", "nil-tx-idx0", "idx-out-of-range", "idx-minus-one",
 	"tx-nil-unlocking", "tx-no-inputs", "prevout-nil-script", "nil-scripts",
 	// transaction objects a caller can build that have no serialisation
-	"tx-nil-checked-input", "tx-input-without-txid", "tx-other-input-without-txid", "tx-nil-other-input", "tx-nil-output", "tx-output-nil-script"}
+	"idx-beyond-32-bits", "tx-nil-checked-input", "tx-input-without-txid", "tx-other-input-without-txid", "tx-nil-other-input", "tx-nil-output", "tx-output-nil-script"}
 
 func c07Options(in *c07Input) []interpreter.ExecutionOptionFunc {
 	unlock := bscript.NewFromBytes(mon.Exact(in.Unlock))
@@ -101,6 +101,9 @@ func c07Options(in *c07Input) []interpreter.ExecutionOptionFunc {
 		o = append(o, interpreter.WithTx(mkTx(), idx, &bt.Output{Satoshis: in.Ctx.Sats}), interpreter.WithScripts(lock, unlock))
 	case "nil-scripts":
 		o = append(o, interpreter.WithScripts(nil, nil))
+	case "idx-beyond-32-bits": // a valid index plus a multiple of 2^32, and other values whose low 32 bits look valid
+		big := []int{1 << 32, 1<<32 + idx, 3<<32 + idx, -(1 << 32) + idx, 1<<31 + idx, 1 << 62, -1 << 63}[int(in.Ctx.Sats/7)%7]
+		o = append(o, interpreter.WithTx(mkTx(), big, prev), interpreter.WithScripts(lock, unlock))
 	case "tx-nil-checked-input":
 		tx := mkTx()
 		tx.Inputs[idx] = nil
